@@ -206,7 +206,7 @@ FIXED_Q = [[0.3, -0.2, 0.5], [0.0, 0.0, 0.9], [1.3, 0.4, -0.7], [0.0, 0.0, 0.0]]
 FIXED_ANGLES = [0.1, 1.3, 2.9, 4.4, 5.9]
 
 
-def project(obj):
+def project(obj, _depth=0):
     """name -> value (float arrays, ints, ('exc', type)); index-valued members canonicalised for ConvexPolyhedron."""
     import numpy as np
     # miniball (behind minimal_bounding_*) is a randomised algorithm driven by the global generators: the same
@@ -269,6 +269,28 @@ def project(obj):
             out["get_face_area()"] = a[order] if order is not None and len(a) == len(order) else a
         except Exception as e:
             out["get_face_area()"] = ("exc", type(e).__name__)
+    # containment at points laid out around the current vertices (inside, near the surface, in a rounding layer, outside); the
+    # factors are arbitrary non-round numbers so that no point sits on a boundary of a lattice base
+    if hasattr(obj, "is_inside") and hasattr(obj, "vertices"):
+        try:
+            v = np.asarray(obj.vertices, dtype=float)
+            m = v.mean(axis=0)
+            w = np.roll(v, 1, axis=0)
+            pts = np.concatenate([m + f * (0.6180339 * v + 0.3819661 * w - m) for f in (0.3713, 0.8291, 1.0937, 1.6113)])
+            out["is_inside(points)"] = np.asarray(obj.is_inside(pts)).astype(float)
+        except Exception as e:
+            out["is_inside(points)"] = ("exc", type(e).__name__)
+    # the live core of a rounded shape is a public handle: what it answers must follow the rounded shape's mutations too
+    if _depth == 0:
+        for attr in ("polyhedron", "polygon"):
+            core = None
+            try:
+                core = getattr(obj, attr, None)
+            except Exception:
+                core = None
+            if core is not None and hasattr(core, "vertices"):
+                for k, val in project(core, _depth=1).items():
+                    out[attr + "." + k] = val
     return out
 
 
@@ -317,12 +339,13 @@ def compare(a, b, mlen, skip=()):
             if not np.array_equal(np.isfinite(x), np.isfinite(y)) or not np.all(np.isfinite(y)):
                 bad.append((k, "non-finite"))
             continue
-        base = k.split(".")[0]
-        pointlike = base in POINTLIKE or k.endswith(".center")
+        kk = k.split(".", 1)[1] if k.startswith(("polyhedron.", "polygon.")) else k      # members of the live core
+        base = kk.split(".")[0]
+        pointlike = base in POINTLIKE or kk.endswith(".center")
         mag = mlen if pointlike else max(float(np.max(np.abs(y))), 1e-300)
-        if k in ("equations",):
+        if kk in ("equations",):
             mag = max(mlen, 1.0)
-        tol = 1e-6 if "minimal_bounding" in k else 1e-9
+        tol = 1e-6 if "minimal_bounding" in kk else 1e-9
         if float(np.max(np.abs(x - y))) > tol * mag:
             bad.append((k, f"max |diff| {float(np.max(np.abs(x - y))):.3e} vs magnitude {mag:.3e}"))
     return bad
@@ -377,6 +400,17 @@ def apply_op(obj, ret, unit=1.0):
                 info["target"] = target
                 info["radius_before"] = float(obj.radius)
                 setattr(core, p, target)
+            elif op == "corecentroid":
+                core = obj.polyhedron if hasattr(obj, "polyhedron") else obj.polygon
+                info["core_cen_before"] = np.asarray(core.centroid, dtype=float)
+                info["target"] = np.array(TARGETS[args[0]]) * unit
+                core.centroid = info["target"].copy()
+            elif op == "read":
+                from . import history
+                who = obj
+                if args[0] == "core":
+                    who = obj.polyhedron if hasattr(obj, "polyhedron") else obj.polygon
+                history.warm(who, history._around(who, type(who).__name__ in ("ConvexPolyhedron", "Polyhedron", "ConvexSpheropolyhedron")), light=True)
             elif op == "radiusbad":
                 obj.radius = -1.0
             elif op == "axis":
@@ -512,6 +546,15 @@ def run_history(job):
                     bad("readback", f"centroid reads back {np.asarray(obj.centroid).tolist()} after assigning {tgt.tolist()}", step)
             except Exception as e:
                 bad("readback", f"reading the centroid raised {e}", step)
+        elif ret["op"] == "corecentroid":
+            tgt = np.asarray(info["target"], dtype=float)
+            expect = before_vertices + (tgt - info["core_cen_before"])
+            if not np.allclose(after_vertices, expect, rtol=1e-9, atol=1e-9 * (mlen + float(np.max(np.abs(before_vertices))))):
+                bad("translation", "assigning the centroid of the live core is not a pure translation of the rounded shape", step)
+        elif ret["op"] == "read":
+            # queries that move the shape and move it back may differ in the last digits (C16's allowance)
+            if not np.allclose(after_vertices, before_vertices, rtol=1e-12, atol=1e-12 * mlen):
+                bad("vertices", "asking questions changed the vertices", step)
         elif ret["op"] == "axis":
             k = 3 + "abc".index(ret["args"][0])
             expect = before_vertices.copy()
